@@ -292,7 +292,7 @@ impl<'a> Gen<'a> {
                     let href = if self.rng.chance(1, 6) && !self.hrefs.is_empty() {
                         self.rng.pick(&self.hrefs).clone()
                     } else if self.o.odd_links && self.rng.chance(1, 6) {
-                        self.rng.pick(&["", "#frag", "rel/path", "?q=1", "http://n.example/a\nb"]).to_string()
+                        self.rng.pick(&["", "#frag", "rel/path", "?q=1", "http://n.example/a\nb", "http://n.example/\u{4e16}\u{754c}", "\u{4e2d}"]).to_string()
                     } else {
                         format!("http://h{}.example/{}", self.linkn, "p".repeat(self.rng.below(20)))
                     };
@@ -364,6 +364,14 @@ impl<'a> Gen<'a> {
                         // numeric characters that are not ASCII digits (alone, or mixed with digits)
                         let d = *self.rng.pick(&["\u{b2}", "\u{bd}", "\u{2460}", "\u{661}", "\u{ff11}\u{ff12}", "1\u{662}", "\u{2075}2", "\u{2167}", "\u{96d}"]);
                         v.push(H::El("sup".into(), attrs, vec![H::Text(d.to_string())]));
+                    } else if self.rng.chance(1, 6) {
+                        // digits separated / surrounded by white space ("1 2": a list of note numbers)
+                        let d = match self.rng.below(3) {
+                            0 => format!("{} {}", self.rng.below(10), self.rng.below(100)),
+                            1 => format!(" {} ", self.rng.below(100)),
+                            _ => format!("{}{}{}", self.rng.below(10), self.ws(), self.rng.below(10)),
+                        };
+                        v.push(H::El("sup".into(), attrs, vec![H::Text(d)]));
                     } else if self.rng.chance(1, 2) {
                         let d = format!("{}", self.rng.below(100));
                         v.push(H::El("sup".into(), attrs, vec![H::Text(d)]));
